@@ -92,6 +92,14 @@ func Reset() { Log = []string{} }
 // Failure: the error a failing operation returns
 func Failure(msg string) error { return fmt.Errorf("%s", msg) }
 
+// Refusal: a custom authorization payload that is also an error (a framework must not render it by its Error() text)
+type Refusal struct {
+	Code   string ` + "`json:\"code\"`" + `
+	Scheme string ` + "`json:\"scheme\"`" + `
+}
+
+func (r Refusal) Error() string { return r.Code + ": " + r.Scheme }
+
 func Fmt(v any) string {
 	rv := reflect.ValueOf(v)
 	if !rv.IsValid() {
@@ -182,14 +190,27 @@ func GleeceRequestAuthorization(ctx context.Context, %s, check runtime.SecurityC
 			}
 			%s
 			if %s != "" {
-				return nil, &runtime.SecurityError{Message: "denied " + d, StatusCode: runtime.HttpStatusCode(status)} // a refusal need not carry a context
+				return nil, refusal(%s, d, status) // a refusal need not carry a context
 			}
-			return ctx, &runtime.SecurityError{Message: "denied " + d, StatusCode: runtime.HttpStatusCode(status)}
+			return ctx, refusal(%s, d, status)
 		}
 	}
 	return ctx, nil
 }
-`, engine, imp, projModule, ctxParam, strings.Replace(hdr, "X-Rig-Deny", "X-Rig-Deny-Status", 1), hdr, strings.Replace(hdr, "X-Rig-Deny", "X-Rig-Deny-Spread", 1), abortStmt, strings.Replace(hdr, "X-Rig-Deny", "X-Rig-Nilctx", 1))
+
+// a refusal may carry a payload of its own: a bare string, or a struct that is also an error
+func refusal(custom, d string, status int) *runtime.SecurityError {
+	e := &runtime.SecurityError{Message: "denied " + d, StatusCode: runtime.HttpStatusCode(status)}
+	switch custom {
+	case "string":
+		e.CustomError = &runtime.CustomError{Payload: "denied " + d}
+	case "error":
+		e.CustomError = &runtime.CustomError{Payload: rigrec.Refusal{Code: "denied", Scheme: d}}
+	}
+	return e
+}
+`, engine, imp, projModule, ctxParam, strings.Replace(hdr, "X-Rig-Deny", "X-Rig-Deny-Status", 1), hdr, strings.Replace(hdr, "X-Rig-Deny", "X-Rig-Deny-Spread", 1), abortStmt, strings.Replace(hdr, "X-Rig-Deny", "X-Rig-Nilctx", 1),
+		strings.Replace(hdr, "X-Rig-Deny", "X-Rig-Custom", 1), strings.Replace(hdr, "X-Rig-Deny", "X-Rig-Custom", 1))
 }
 
 const rigMainSrc = `package main
@@ -295,6 +316,13 @@ func main() {
 		}()
 		reg()
 	}
+	// a program may set up more than one engine (a public and an internal listener, a fresh engine per test): every
+	// one of them serves the routes - the answers come from the SECOND registration of each router
+	try("gin", func() { rgin.RegisterRoutes(gin.New()) })
+	try("echo", func() { recho.RegisterRoutes(echo.New()) })
+	try("mux", func() { rmux.RegisterRoutes(mux.NewRouter()) })
+	try("chi", func() { rchi.RegisterRoutes(chi.NewRouter()) })
+	try("fiber", func() { rfiber.RegisterRoutes(fiber.New(fiber.Config{DisableStartupMessage: true})) })
 	g := gin.New()
 	try("gin", func() { rgin.RegisterRoutes(g) })
 	e := echo.New()
